@@ -37,3 +37,14 @@ package dtls
 //@ loop #1: prefix-kept: forall(0, len(old(LSN(c))), func(e int) bool { return common.LocalSequenceNumber[e] == old(LSN(c)[e]) })
 //@ loop #1: new-are-zero: forall(len(old(LSN(c))), len(common.LocalSequenceNumber), func(e int) bool { return common.LocalSequenceNumber[e] == 0 })
 //@ end
+
+// Emission of handshake records (DTLS 1.2 path): every fragment gets its own freshly allocated
+// sequence number, and the header that is marshalled and handed to the cipher suite carries it.
+
+//@ func Conn.processHandshakePacket
+//@ watch Conn.nextLocalSequenceNumber CipherSuite.Encrypt
+//@ requires state12: has12(c)
+//@ requires args: pkt != nil && pkt.Record != nil && dtlsHandshake != nil
+//@ loop rangeindex: header-seq-is-allocated: ncalls("Conn.nextLocalSequenceNumber") > 0 ==> pkt.Record.Header.SequenceNumber == retU64("Conn.nextLocalSequenceNumber", 0)
+//@ loop rangeindex: encrypt-sees-allocated: called("CipherSuite.Encrypt") ==> argAs("CipherSuite.Encrypt", 1, *pkt.Record).Header.SequenceNumber == retU64("Conn.nextLocalSequenceNumber", 0)
+//@ end
